@@ -273,7 +273,7 @@ func run(c *core.Ctx) {
 	}
 	// 1. exhaustive: every history of length <= L over keys {0,1} x values {0,1} on the zero value
 	// 2. exhaustive with Clone: every history of length <= LC with exactly one Clone, acting on both handles
-	L, LC := c.N(5, 6, 6), c.N(4, 5, 5)
+	L, LC := c.N(5, 6, 5), c.N(4, 4, 4)
 	exhaustive := func(visit func([]Op)) {
 		rec(nil, 1, 0, L, false, visit)
 		rec(nil, 1, 1, LC, true, visit)
@@ -282,7 +282,7 @@ func run(c *core.Ctx) {
 	// 4. unusual keys and values: negative, huge, the extreme ints (and 0, the zero value a failed lookup returns)
 	u4 := []int{0, 1, 2, 3}
 	odd := []int{-3, 0, 5, 1 << 40, -1 << 63, 1<<63 - 1}
-	nRandom, nOdd := c.N(500, 8000, 20000), c.N(100, 1500, 3000)
+	nRandom, nOdd := c.N(500, 8000, 8000), c.N(100, 1500, 1500)
 	random := func(i int) Case {
 		if i >= nRandom {
 			return Case{Univ: odd, Ops: randomOps(c.Rng, odd, 1+c.Rng.Size(40), 4), Mode: "all"}
